@@ -70,6 +70,7 @@ var (
 	prefix         = []byte{0xEE}
 	prefixContract = []byte{0xEE, 0x01}
 	prefixBalance  = []byte{0xEE, 0x02}
+	prefixBeacon   = []byte{0xEE, 0x03} // beacon address -> implementation address
 
 	_ tokentypes.EVMKeeper   = (*Ledger)(nil)
 	_ tokentypes.ICS20Keeper = ICS20{}
@@ -247,6 +248,11 @@ func (l *Ledger) apply(ctx sdk.Context, msg core.Message) (*tokentypes.Result, e
 	c := *msg.To()
 	m, ok := l.getMeta(ctx, c)
 	if !ok {
+		// not an ERC20 of this ledger: the UpgradeableBeacon at params.Beacon
+		// (UpgradeERC20 calls upgradeTo(implementation) on it)
+		if res, handled := l.beaconCall(ctx, c, msg.Data()); handled {
+			return res, nil
+		}
 		return nil, fmt.Errorf("evmledger: contract %s not found", c.Hex())
 	}
 	data := msg.Data()
@@ -270,6 +276,58 @@ func (l *Ledger) apply(ctx sdk.Context, msg core.Message) (*tokentypes.Result, e
 		return reverted(revert)
 	}
 	return &tokentypes.Result{Hash: c.Hex(), Ret: ret, Logs: logs}, nil
+}
+
+// beaconCall: any address without ERC20 code answers the beacon's upgradeTo and
+// implementation methods; upgrading to the quirk address evrevert reverts
+// (BeaconInvalidImplementation in the real contract).
+func (l *Ledger) beaconCall(ctx sdk.Context, beacon common.Address, data []byte) (*tokentypes.Result, bool) {
+	if len(data) < 4 {
+		return nil, false
+	}
+	babi := contracts.BeaconContract.ABI
+	method, err := babi.MethodById(data[:4])
+	if err != nil {
+		return nil, false
+	}
+	key := append(append([]byte{}, prefixBeacon...), beacon.Bytes()...)
+	switch method.Name {
+	case contracts.MethodUpgradeTo:
+		args, err := method.Inputs.Unpack(data[4:])
+		if err != nil {
+			res, _ := reverted("bad arguments")
+			return res, true
+		}
+		impl := args[0].(common.Address)
+		if impl == addrRevert {
+			res, _ := reverted("BeaconInvalidImplementation")
+			return res, true
+		}
+		l.store(ctx).Set(key, impl.Bytes())
+		return &tokentypes.Result{Hash: beacon.Hex()}, true
+	case "implementation":
+		out, _ := method.Outputs.Pack(common.BytesToAddress(l.store(ctx).Get(key)))
+		return &tokentypes.Result{Hash: beacon.Hex(), Ret: out}, true
+	}
+	return nil, false
+}
+
+// Implementation returns the implementation recorded for a beacon (zero if none).
+func (l *Ledger) Implementation(ctx sdk.Context, beacon common.Address) (common.Address, bool) {
+	bz := l.store(ctx).Get(append(append([]byte{}, prefixBeacon...), beacon.Bytes()...))
+	return common.BytesToAddress(bz), bz != nil
+}
+
+// ForgedLog builds a SwapToNative log as a contract at `addr` would emit it,
+// without any balance moving (the token keeper's hook is exercised on logs of
+// contracts it does not know and on malformed logs).
+func ForgedLog(addr, from common.Address, to string, amount *big.Int) (*ethtypes.Log, error) {
+	ev := contracts.ERC20TokenContract.ABI.Events[contracts.EventSwapToNative]
+	data, err := ev.Inputs.Pack(from, to, amount)
+	if err != nil {
+		return nil, err
+	}
+	return &ethtypes.Log{Address: addr, Topics: []common.Hash{ev.ID}, Data: data}, nil
 }
 
 func (l *Ledger) create(ctx sdk.Context, msg core.Message) (*tokentypes.Result, error) {
